@@ -6,6 +6,7 @@ import toyasmgen
 import rvgen
 
 PROP = "C15"
+CONSTS = ['ops', 'asm', 'toy', 'mem']          # constant tables of the models this property depends on
 RULE = ("RISC-V and TOY texts: grammar-derived programs with injected lexical/structural faults (leading-zero, empty-prefix, "
         "oversized and non-ASCII numerals and mnemonics, unknown labels/variables/directives, duplicated/misplaced segments, "
         "character damage), random token soups, programs that do not fit the memory; and generated RISC-V programs that fault "
